@@ -18,7 +18,7 @@ from .doc_replay import abst, ds_quads, guarded, wellformed, _Timeout
 warnings.simplefilter("ignore")
 RDF = "http://www.w3.org/1999/02/22-rdf-syntax-ns#"
 XSD = "http://www.w3.org/2001/XMLSchema#"
-NS = {0: RDF, 1: "http://ex.example/a/", 2: "http://ex.example/a/b#", 3: "urn:x:n:"}
+NS = {0: RDF, 1: "http://ex.example/a/b/c/", 2: "http://ex.example/a/b/c/d#", 3: "urn:x:n:"}
 REL_NS = {1, 2}          # namespaces under which a relative reference "local" / "#local" resolves to ns + local
 LOCAL_POOL = ["x1", "a.b", "1a", "a-b_c", "a,b", "a:b", "é", "a%41", "", "a~b", "x.", "a/b", "a(b)", "a'b", "a;b=c", "A_", "\U00010400", "a..b", "-a", "a@b", "a!$&*+?#"]
 PN_LOCAL_ESC = set("_~.-!$&'()*+,;=/?#@%")
@@ -86,17 +86,26 @@ class Writer:
         return "<" + "".join(out) + ">"
 
     def rel_ref(self, t):
+        """one of the relative references that RFC 3986 5.2 resolves, against the base in force (= the namespace of t), to the IRI of t;
+        each candidate is built from the known structure of the namespaces and cross-checked with urllib's resolver"""
+        from urllib.parse import urljoin
         loc = self.local[t["l"]]
         ns = NS[t["ns"]]
+        target = ns + loc
         if ns.endswith("#"):
-            return "#" + loc
-        # a first segment containing ':' would read as a scheme; '' is the base itself
-        if loc == "":
-            return self.rng.choice(["", "./", "."]) if False else ""
-        first = loc.split("/")[0]
-        if ":" in first or loc.startswith(("/", "?", "#")) or first in (".", ".."):
-            return "./" + loc
-        return loc
+            cands = ["#" + loc, "d#" + loc, "./d#" + loc, "../c/d#" + loc, "../../b/c/d#" + loc, "/a/b/c/d#" + loc, "//ex.example/a/b/c/d#" + loc, "?#" + loc if False else "#" + loc]
+        else:
+            first = loc.split("/")[0]
+            plain = loc if not (loc == "" or ":" in first or loc.startswith(("/", "?", "#")) or first in (".", "..")) else "./" + loc
+            cands = [plain, "./" + loc, "../c/" + loc, "../../b/c/" + loc, "../../../a/b/c/" + loc, "/a/b/c/" + loc, "//ex.example/a/b/c/" + loc, ".././c/" + loc, "../../../../a/b/c/" + loc]
+            if loc == "":
+                cands += ["", "."]
+        ref = self.rng.choice(cands)
+        if urljoin(ns, ref) != target:
+            ref = cands[0]
+            if urljoin(ns, ref) != target:
+                return None
+        return ref
 
     def relative_ok(self, t):
         loc = self.local[t["l"]]
@@ -136,7 +145,9 @@ class Writer:
         if how == "a":
             return "a"
         if how == "rel" and self.relative_ok(t):
-            return self.iriref(self.rel_ref(t))
+            ref = self.rel_ref(t)
+            if ref is not None:
+                return self.iriref(ref)
         if how == "pname" and self.pname_ok(self.local[t["l"]]):
             return sp["pfx"] + ":" + self.pname_local(self.local[t["l"]])
         return self.iriref(v)
@@ -287,6 +298,7 @@ class Writer:
 
 
 ROUTES = ["str", "bytes", "bytesio", "stringio", "path", "pathlib", "fileobj"]
+NAMES = ["doc", "my doc", "100%25 sure", "r\u00e9sum\u00e9", "a#b", "a+b&c"]
 
 
 def parse_route(route, text, fmt, tmp, enc="utf-8"):
@@ -300,7 +312,7 @@ def parse_route(route, text, fmt, tmp, enc="utf-8"):
     elif route == "stringio":
         sink.parse(source=io.StringIO(text), format=fmt)
     else:
-        path = os.path.join(tmp, "doc." + {"nt": "nt", "nquads": "nq", "turtle": "ttl", "trig": "trig", "xml": "rdf", "json-ld": "jsonld"}[fmt])
+        path = os.path.join(tmp, NAMES[len(text) % len(NAMES)] + "." + {"nt": "nt", "nquads": "nq", "turtle": "ttl", "trig": "trig", "xml": "rdf", "json-ld": "jsonld"}[fmt])
         with open(path, "wb") as f:
             f.write(text.encode(enc))
         if route == "path":
